@@ -557,6 +557,14 @@ def buffer_consumers(ctx, rule):
                 for sx in sites:
                     k += 1
                     q = prefix + fn.name
+                    if q == "EventSource.parseEvents":
+                        # one reviewed site only: the LF of a CRLF split across two receives (C33 T9-crlf judges its condition)
+                        txt = src(sx).replace(" ", "")
+                        ctx.check(txt in ("self.raw[:1]", "self.raw[0]", "self.raw[0:1]"), rule, sx,
+                                  "EventSource.parseEvents removes %s" % src(sx)[:40],
+                                  "the event parser may drop exactly one byte, the LF of a split CRLF; anything else it deletes (a partial "
+                                  "comment line while waiting, ..) changes what the line parser sees when the rest arrives")
+                        continue
                     ctx.check(q in CONSUMERS, rule, sx, "%s removes bytes from %s: %s" % (q, src(sx.value if isinstance(sx, ast.Subscript) else sx.func.value), src(sx)[:40]),
                               "bytes leave the receive buffer outside the parser primitives: whether they belong to the next unit "
                               "depends on how the stream was cut into receives (a byte dropped as `the LF of a split CRLF` long after "
